@@ -68,6 +68,20 @@ CLAIMED = {
         note=TB + "; the whole-scene statement is bounded (fixed scene family); qhull on both sides for the hull.",
         technique="contract-based deductive verification (lambda-array symbolic execution of bounds_corners/bounds on a ghost self) + bounded contract evaluation on the real classes against the explicit-placement oracle",
     ),
+    "C11": dict(
+        category="proof",
+        text="intersections.plane_lines (one line, every real input of ordinary magnitude): a returned point is a + (t/b).dir^, lies on the plane (n^.(x-o)=0 with n = |n|.n^) and on the line through the end points; nothing is returned when the line is rejected - discharged through hint lemmas, z3 and a sympy Groebner back end for the rational identities. intersections.mesh_plane on a ghost mesh with one triangle, one contract per sign pattern (all 27): the number of segments is the one the pattern demands (two crossed edges, vertex + opposite edge, edge in the plane from the positive side, otherwise none) and the end points are exactly the on-plane vertices and plane_lines' intersections of the edges whose end points lie strictly on different sides (modular over plane_lines; general position: a straddling edge is not within 1e-6 of parallel). intersections.mesh_multiplane hands mesh_plane, for every height, cached dots equal to the dots with the shifted origin for the very normal it passes, parallel to the requested one and at the requested signed offset (every real, non-unit normals included). Bounded: 7 meshes (convex, torus, two bodies, cone, open patch, solid with cavity) x 8 planes (generic, axis, non-unit normal, through a vertex, along an edge, in a face, missing): section points on plane and surface, closed for watertight meshes in general position, face subsets, multiplane = section per height, opposite slices add up to the area, capped halves add up to the volume and are watertight for convex solids with the earcut, triangle and manifold engines.",
+        design_ref="DESIGN.md §4 C11",
+        note=TB + "; per-triangle contracts are modular over plane_lines and assume general position; loop closure, capping and the triangulation engines are bounded only; slice_faces_plane is covered by the bounded tier only.",
+        technique="contract-based deductive verification (symbolic execution with sqrt axioms, hint lemmas, z3 + sympy Groebner reduction) + bounded contract evaluation on the real classes",
+    ),
+    "C12": dict(
+        category="proof",
+        text="ray_triangle.ray_bounds is proved, for a unit direction and every real origin / bounds / primary axis, to return a box that contains every point o + t.d (t >= 0) lying inside the tree bounds - the pruning box is never too tight; the precondition |d| = 1 this needs is a call-site obligation on ray_triangle_id, which failed on the unchanged tree (genuine defect, repaired: hits next to the origin were lost for non-unit directions) and is now discharged. intersections.planes_lines: valid <=> |d.n| > 1e-5, the location is o + distance.d and lies on the plane; triangles.points_to_barycentric (cramer and cross): weights sum to one and equal the plane coordinates of the point, for every proper triangle. Bounded: six meshes x seeded rays in general position (origins inside / outside, axis-aligned / oblique, unit, 1000x and 0.001x directions) against an all-triangles Moeller-Trumbore oracle for both engines (hit set, location on ray and triangle, first hit = nearest, intersects_any); closest point, distance and signed distance against the minimum over all triangles; containment and sign against the half-space test on convex solids.",
+        design_ref="DESIGN.md §4 C12",
+        note=TB + "; (M4) rtree / kd-tree are assumed contracts; the embree engine is only compared with the oracle; the acceptance test of ray_triangle_id and triangles.closest_point are covered by the bounded tier only.",
+        technique="contract-based deductive verification (symbolic execution, z3/sympy) with a call-site precondition obligation + bounded contract evaluation against an exhaustive oracle on the real classes",
+    ),
     "C13": dict(
         category="proof",
         text="Run-length codecs against the abstract view dec(runs)[p] (value of the run containing position p, p a universally quantified integer): merge_brle_lengths, rle_to_brle (incl. its ValueError condition), merge_rle_lengths, brle_logical_not, brle_reverse, rle_reverse, brle_strip, rle_strip, brle_to_rle, brle_length/rle_length are proved lossless for EVERY non-negative integer count at each fixed run count 1..5 (bounded shape), split_long_brle/rle_lengths for uint8 with every count below 3*255 (case split on the quotient). The lazy index maps (FlippedEncoding, TransposedEncoding, ShapedEncoding, FlattenedEncoding): _to_base_indices equals numpy's flip / transpose / reshape index arithmetic for every integer index inside the shape and _from_base_indices is its inverse (symbolic indices, concrete small shapes incl. 3-cycles). ops.indices_to_points/points_to_indices are mutually inverse and voxel Transform.transform_points = M.i, unit_volume = det for every real axis-aligned transform (proof, unbounded); inverse_transform_points/rounding in the thorough tier. Bounded tier: every boolean array of shapes (5,),(2,3),(2,2,2) and integer arrays over {0,1,2} through Dense/Sparse/RLE/BRLE and every flip/transpose/flatten/reshape view, 11 reads each against the dense numpy array; every boolean sequence up to length 9 and ternary sequence up to length 6 through every codec, gather (array and list indices) and mask function; runs at max-1, max, max+1, 2max+1 for every count dtype. Nine defects found this way were repaired (fix: commits), four are recorded known findings.",
